@@ -91,13 +91,33 @@ theorem gen_map_find (h : Nat → Nat) (t : PTable) (k : Nat) :
 theorem gen_map_removeIt (h : Nat → Nat) (t : PTable) (item : Nat) (hc : (t.items item).cell ≠ .nextOf item)
     (hp : (t.items item).prev ≠ some item) :
     HashLink.HashMap.removeIt h t (.item item) = some (t.removeItem item) := by
-  unfold HashLink.HashMap.removeIt PTable.removeItem PTable.unlinkChain PTable.unlinkOrder
-  rcases hnc : (t.items item).nextCell with _ | n <;> rcases hpv : (t.items item).prev with _ | p <;>
-    simp [writeCell_items_ne t _ _ item hc, hnc, hpv, setCell_prev, setCell_next, writeCell_prev, writeCell_next,
-      setPrev_next, setPrevOf_next]
-  all_goals
-    have hpi : item ≠ p := fun e => hp (by rw [hpv, e])
-    simp [setNext_next_ne _ _ _ _ hpi, setCell_next, writeCell_next]
+  first
+  | -- reads evaluated through the stores by frame lemmas (the shape of the header, reads hoisted into locals)
+    unfold HashLink.HashMap.removeIt PTable.removeItem PTable.unlinkChain PTable.unlinkOrder
+    rcases hnc : (t.items item).nextCell with _ | n <;> rcases hpv : (t.items item).prev with _ | p <;>
+      simp [writeCell_items_ne t _ _ item hc, hnc, hpv, setCell_prev, setCell_next, writeCell_prev, writeCell_next,
+        setPrev_next, setPrevOf_next]
+    all_goals
+      have hpi : item ≠ p := fun e => hp (by rw [hpv, e])
+      simp [setNext_next_ne _ _ _ _ hpi, setCell_next, writeCell_next]
+    done
+  | -- in addition `next->prev = prev` in front of `prev->next = next` (harmless change C02-h6): the two stores commute
+    unfold HashLink.HashMap.removeIt PTable.removeItem PTable.unlinkChain PTable.unlinkOrder
+    rcases hnc : (t.items item).nextCell with _ | n <;> rcases hpv : (t.items item).prev with _ | p
+    all_goals
+      simp only [HashLink.HashMap.removeIt_k1, HashLink.HashMap.removeIt_k2, PTable.prevOf, hnc, hpv,
+        writeCell_items_ne t _ _ item hc, setCell_prev, setCell_next, writeCell_prev, writeCell_next,
+        setNext_setPrevOf_comm, setPrevOf_begin, setPrev_next, setPrevOf_next]
+    all_goals
+      first
+      | rfl
+      | (rcases hnx : (t.items item).next with nx | o <;> rfl)
+      | (have hpi : item ≠ p := fun e => hp (by rw [hpv, e])
+         simp only [setNext_next_ne _ _ _ _ hpi, setCell_next, writeCell_next, setPrev_next, setPrevOf_next]
+         done)
+      | (have hpi : item ≠ p := fun e => hp (by rw [hpv, e])
+         simp only [setNext_next_ne _ _ _ _ hpi, setCell_next, writeCell_next, setPrev_next, setPrevOf_next]
+         rfl)
 
 /-- … hence on every table that represents a model state, for every live item. -/
 theorem gen_map_removeIt_rel {h : Nat → Nat} {pt : PTable} {t : Table} (hr : Rel pt t) (hi : t.Inv h) (id : Nat)
@@ -431,13 +451,33 @@ theorem gen_set_find (h : Nat → Nat) (t : PTable) (k : Nat) :
 theorem gen_set_removeIt (h : Nat → Nat) (t : PTable) (item : Nat) (hc : (t.items item).cell ≠ .nextOf item)
     (hp : (t.items item).prev ≠ some item) :
     HashLink.HashSet.removeIt h t (.item item) = some (t.removeItem item) := by
-  unfold HashLink.HashSet.removeIt PTable.removeItem PTable.unlinkChain PTable.unlinkOrder
-  rcases hnc : (t.items item).nextCell with _ | n <;> rcases hpv : (t.items item).prev with _ | p <;>
-    simp [writeCell_items_ne t _ _ item hc, hnc, hpv, setCell_prev, setCell_next, writeCell_prev, writeCell_next,
-      setPrev_next, setPrevOf_next]
-  all_goals
-    have hpi : item ≠ p := fun e => hp (by rw [hpv, e])
-    simp [setNext_next_ne _ _ _ _ hpi, setCell_next, writeCell_next]
+  first
+  | -- reads evaluated through the stores by frame lemmas (the shape of the header, reads hoisted into locals)
+    unfold HashLink.HashSet.removeIt PTable.removeItem PTable.unlinkChain PTable.unlinkOrder
+    rcases hnc : (t.items item).nextCell with _ | n <;> rcases hpv : (t.items item).prev with _ | p <;>
+      simp [writeCell_items_ne t _ _ item hc, hnc, hpv, setCell_prev, setCell_next, writeCell_prev, writeCell_next,
+        setPrev_next, setPrevOf_next]
+    all_goals
+      have hpi : item ≠ p := fun e => hp (by rw [hpv, e])
+      simp [setNext_next_ne _ _ _ _ hpi, setCell_next, writeCell_next]
+    done
+  | -- in addition `next->prev = prev` in front of `prev->next = next` (harmless change C02-h6): the two stores commute
+    unfold HashLink.HashSet.removeIt PTable.removeItem PTable.unlinkChain PTable.unlinkOrder
+    rcases hnc : (t.items item).nextCell with _ | n <;> rcases hpv : (t.items item).prev with _ | p
+    all_goals
+      simp only [HashLink.HashSet.removeIt_k1, HashLink.HashSet.removeIt_k2, PTable.prevOf, hnc, hpv,
+        writeCell_items_ne t _ _ item hc, setCell_prev, setCell_next, writeCell_prev, writeCell_next,
+        setNext_setPrevOf_comm, setPrevOf_begin, setPrev_next, setPrevOf_next]
+    all_goals
+      first
+      | rfl
+      | (rcases hnx : (t.items item).next with nx | o <;> rfl)
+      | (have hpi : item ≠ p := fun e => hp (by rw [hpv, e])
+         simp only [setNext_next_ne _ _ _ _ hpi, setCell_next, writeCell_next, setPrev_next, setPrevOf_next]
+         done)
+      | (have hpi : item ≠ p := fun e => hp (by rw [hpv, e])
+         simp only [setNext_next_ne _ _ _ _ hpi, setCell_next, writeCell_next, setPrev_next, setPrevOf_next]
+         rfl)
 
 /-- … hence on every table that represents a model state, for every live item. -/
 theorem gen_set_removeIt_rel {h : Nat → Nat} {pt : PTable} {t : Table} (hr : Rel pt t) (hi : t.Inv h) (id : Nat)
@@ -769,23 +809,42 @@ theorem gen_pool_find (h : Nat → Nat) (t : PTable) (k : Nat) :
     independently of the statement order, as for the other two containers). -/
 theorem gen_pool_removeValue (h : Nat → Nat) (t : PTable) (item : Nat) (hc : (t.items item).cell ≠ .nextOf item) :
     HashLink.PoolMap.removeValue h t item = some (t.removeItem item).1 := by
-  unfold HashLink.PoolMap.removeValue PTable.removeItem PTable.unlinkChain PTable.unlinkOrder
-  rcases hnc : (t.items item).nextCell with _ | n <;> rcases hpv : (t.items item).prev with _ | p <;>
-    simp [writeCell_items_ne t _ _ item hc, hnc, hpv, setCell_prev, setCell_next, writeCell_prev, writeCell_next,
-      setPrev_next, setPrevOf_next]
+  first
+  |
+    unfold HashLink.PoolMap.removeValue PTable.removeItem PTable.unlinkChain PTable.unlinkOrder
+    rcases hnc : (t.items item).nextCell with _ | n <;> rcases hpv : (t.items item).prev with _ | p <;>
+      simp [writeCell_items_ne t _ _ item hc, hnc, hpv, setCell_prev, setCell_next, writeCell_prev, writeCell_next,
+        setPrev_next, setPrevOf_next]
+    done
+  | -- `next->prev = prev` in front of `prev->next = next` (harmless change C02-h6)
+    unfold HashLink.PoolMap.removeValue PTable.removeItem PTable.unlinkChain PTable.unlinkOrder
+    rcases hnc : (t.items item).nextCell with _ | n <;> rcases hpv : (t.items item).prev with _ | p
+    all_goals
+      simp only [HashLink.PoolMap.removeValue_k1, HashLink.PoolMap.removeValue_k2, PTable.prevOf, hnc, hpv,
+        writeCell_items_ne t _ _ item hc, setCell_prev, setCell_next, writeCell_prev, writeCell_next,
+        setNext_setPrevOf_comm, setPrevOf_begin]
+    all_goals
+      first
+      | rfl
+      | (rcases hnx : (t.items item).next with nx | o <;> rfl)
 
 /-- The translated `PoolMap::remove(const Iterator&)` (`remove(item->value); return item->next;`) is the model's `removeItem`:
     `item->next` is read from the released item. -/
-theorem gen_pool_removeIt (h : Nat → Nat) (t : PTable) (item : Nat) (hc : (t.items item).cell ≠ .nextOf item) :
+theorem gen_pool_removeIt (h : Nat → Nat) (t : PTable) (item : Nat) (hc : (t.items item).cell ≠ .nextOf item)
+    (hp : (t.items item).prev ≠ some item) :
     HashLink.PoolMap.removeIt h t (.item item) = some (t.removeItem item) := by
-  unfold HashLink.PoolMap.removeIt
-  simp only [gen_pool_removeValue h t item hc]
-  rfl
+  first
+  | (unfold HashLink.PoolMap.removeIt
+     simp only [gen_pool_removeValue h t item hc]
+     rfl)
+  | -- `item->next` saved before the removal (harmless change C02-h6)
+    (unfold HashLink.PoolMap.removeIt
+     simp only [gen_pool_removeValue h t item hc, ← removeItem_snd t item hc hp])
 
 /-- … hence on every table that represents a model state, for every live item. -/
 theorem gen_pool_removeIt_rel {h : Nat → Nat} {pt : PTable} {t : Table} (hr : Rel pt t) (hi : t.Inv h) (id : Nat)
     (hm : id ∈ t.order) : HashLink.PoolMap.removeIt h pt (.item id) = some (pt.removeItem id) :=
-  gen_pool_removeIt h pt id (hr.cell_ne_self hi id hm)
+  gen_pool_removeIt h pt id (hr.cell_ne_self hi id hm) (hr.prev_ne_self hi id hm)
 
 /-- The translated `PoolMap::remove(const T& key)` (`find`, then `remove(it)` unless `end()`) is the model's `removeKey` on
     every table that represents a model state. -/
@@ -1063,159 +1122,313 @@ theorem gen_pool_swap (a b : PTable) : HashLink.PoolMap.swap a b = some (PTable.
 
 /-! ### members that walk the list of `other` (HashMap.hpp, HashSet.hpp) -/
 
-theorem gen_map_assign_loop (h : Nat → Nat) (o : PTable) (fuel : Nat) : ∀ (pt : PTable) (t : Table) (i : Nxt), Rel pt t → t.Inv h →
-    HashLink.HashMap.assign_loop1 h fuel pt o i (.stl o.self) = PTable.appendLoop Kind.map h o.self o.items fuel i pt := by
-  induction fuel with
-  | zero =>
-    intro pt t i hr hi
-    cases i with
-    | stl s =>
-      unfold HashLink.HashMap.assign_loop1 PTable.appendLoop
-      by_cases hs : s = o.self <;> simp [hs]
-    | item a => simp [HashLink.HashMap.assign_loop1, PTable.appendLoop]
-  | succ f ih =>
-    intro pt t i hr hi
-    cases i with
-    | stl s =>
-      unfold HashLink.HashMap.assign_loop1 PTable.appendLoop
-      by_cases hs : s = o.self <;> simp [hs]
-    | item a =>
-      unfold HashLink.HashMap.assign_loop1 PTable.appendLoop
-      simp only [reduceCtorEq, if_false]
-      have e := gen_map_insert_rel hr hi t.order.length (o.items a).key (o.items a).value
-      rw [nxtAt_length] at e
-      rw [e]
-      obtain ⟨r, e1, _, hr', _⟩ := hr.insert hi Kind.map t.order.length (o.items a).key (o.items a).value (Nat.le_refl _)
-      rw [nxtAt_length] at e1
-      rw [e1]
-      simp only [Option.map_some]
-      exact ih r.1 _ _ hr' (hi.insert Kind.map t.order.length (o.items a).key (o.items a).value (Nat.le_refl _)).1
-
 /-- The translated `HashMap::operator=(other)` for ANOTHER object (`this == &other` is false: the guard line is the model's
     `assignSelf`) – `clear()`, then `append(i->key, i->value)` along `other`'s list up to `other`'s sentinel, the reads from
     `other`'s items – is the model's `assignFrom`, on every represented table and for EVERY source table. -/
 theorem gen_map_assign {h : Nat → Nat} {pt : PTable} {t : Table} (hr : Rel pt t) (hi : t.Inv h) (o : PTable) :
     HashLink.HashMap.assign h pt o = pt.assignFrom Kind.map h o := by
-  unfold HashLink.HashMap.assign PTable.assignFrom PTable.appendAll
-  rw [gen_map_clear]
-  obtain ⟨pt', e, hr', _⟩ := hr.clear hi
-  rw [e]
-  exact gen_map_assign_loop h o _ pt' _ _ hr' hi.clear.1
-
-theorem gen_map_equal_loop (h : Nat → Nat) (t o : PTable) (fuel : Nat) : ∀ (a b : Nxt),
-    HashLink.HashMap.equal_loop1 h fuel t o a b = (PTable.eqLoop Kind.map t.self t.items o.items fuel a b).map (fun r => (t, r)) := by
-  induction fuel with
-  | zero =>
-    intro a b
-    cases a with
-    | stl s =>
-      unfold HashLink.HashMap.equal_loop1 PTable.eqLoop
-      by_cases hs : s = t.self <;> simp [hs]
-    | item x => simp [HashLink.HashMap.equal_loop1, PTable.eqLoop]
-  | succ f ih =>
-    intro a b
-    cases a with
-    | stl s =>
-      unfold HashLink.HashMap.equal_loop1 PTable.eqLoop
-      by_cases hs : s = t.self <;> simp [hs]
-    | item x =>
-      cases b with
-      | stl s => simp [HashLink.HashMap.equal_loop1, PTable.eqLoop]
-      | item y =>
-        unfold HashLink.HashMap.equal_loop1 PTable.eqLoop
-        simp only [reduceCtorEq, if_false]
-        by_cases hk : (t.items x).key = (o.items y).key
-        · by_cases hv : (t.items x).value = (o.items y).value
-          · simp only [hk, hv, if_true, ne_eq, not_true_eq_false, and_false, or_false, if_false]
-            exact ih _ _
-          · simp [hk, hv]
-        · simp [hk]
+  first
+  | -- the loop over `other`'s list written in `operator=` itself
+    have hloop : ∀ (fuel : Nat) (pt : PTable) (t : Table) (i : Nxt), Rel pt t → t.Inv h →
+        HashLink.HashMap.assign_loop1 h fuel pt o i (.stl o.self) = PTable.appendLoop Kind.map h o.self o.items fuel i pt := by
+      intro fuel
+      induction fuel with
+      | zero =>
+        intro pt t i hr hi
+        cases i with
+        | stl s =>
+          unfold HashLink.HashMap.assign_loop1 PTable.appendLoop
+          by_cases hs : s = o.self <;> simp [hs]
+        | item a => simp [HashLink.HashMap.assign_loop1, PTable.appendLoop]
+      | succ f ih =>
+        intro pt t i hr hi
+        cases i with
+        | stl s =>
+          unfold HashLink.HashMap.assign_loop1 PTable.appendLoop
+          by_cases hs : s = o.self <;> simp [hs]
+        | item a =>
+          unfold HashLink.HashMap.assign_loop1 PTable.appendLoop
+          simp only [reduceCtorEq, if_false]
+          have e := gen_map_insert_rel hr hi t.order.length (o.items a).key (o.items a).value
+          rw [nxtAt_length] at e
+          rw [e]
+          obtain ⟨r, e1, _, hr', _⟩ := hr.insert hi Kind.map t.order.length (o.items a).key (o.items a).value (Nat.le_refl _)
+          rw [nxtAt_length] at e1
+          rw [e1]
+          simp only [Option.map_some]
+          exact ih r.1 _ _ hr' (hi.insert Kind.map t.order.length (o.items a).key (o.items a).value (Nat.le_refl _)).1
+    unfold HashLink.HashMap.assign PTable.assignFrom PTable.appendAll
+    rw [gen_map_clear]
+    obtain ⟨pt', e, hr', _⟩ := hr.clear hi
+    rw [e]
+    exact hloop _ pt' _ _ hr' hi.clear.1
+  | -- `operator=` calls a member / helper that holds the loop (harmless change C02-h6)
+    have hloop : ∀ (fuel : Nat) (pt : PTable) (t : Table) (i : Nxt), Rel pt t → t.Inv h →
+        HashLink.HashMap.appendAll_loop1 h fuel pt o i (.stl o.self) = PTable.appendLoop Kind.map h o.self o.items fuel i pt := by
+      intro fuel
+      induction fuel with
+      | zero =>
+        intro pt t i hr hi
+        cases i with
+        | stl s =>
+          unfold HashLink.HashMap.appendAll_loop1 PTable.appendLoop
+          by_cases hs : s = o.self <;> simp [hs]
+        | item a => simp [HashLink.HashMap.appendAll_loop1, PTable.appendLoop]
+      | succ f ih =>
+        intro pt t i hr hi
+        cases i with
+        | stl s =>
+          unfold HashLink.HashMap.appendAll_loop1 PTable.appendLoop
+          by_cases hs : s = o.self <;> simp [hs]
+        | item a =>
+          unfold HashLink.HashMap.appendAll_loop1 PTable.appendLoop
+          simp only [reduceCtorEq, if_false]
+          have e := gen_map_insert_rel hr hi t.order.length (o.items a).key (o.items a).value
+          rw [nxtAt_length] at e
+          rw [e]
+          obtain ⟨r, e1, _, hr', _⟩ := hr.insert hi Kind.map t.order.length (o.items a).key (o.items a).value (Nat.le_refl _)
+          rw [nxtAt_length] at e1
+          rw [e1]
+          simp only [Option.map_some]
+          exact ih r.1 _ _ hr' (hi.insert Kind.map t.order.length (o.items a).key (o.items a).value (Nat.le_refl _)).1
+    unfold HashLink.HashMap.assign HashLink.HashMap.appendAll PTable.assignFrom PTable.appendAll
+    rw [gen_map_clear]
+    obtain ⟨pt', e, hr', _⟩ := hr.clear hi
+    rw [e]
+    simp only [hloop _ pt' _ _ hr' hi.clear.1]
+    cases PTable.appendLoop Kind.map h o.self o.items o.size o.begin pt' <;> rfl
 
 /-- The translated `HashMap::operator==` (sizes, then keys and values pairwise along both lists until the own sentinel) is
     the model's `equal`, for EVERY two tables (also a table with itself): a fault where `b->key` would read the other sentinel. -/
 theorem gen_map_equal (h : Nat → Nat) (t o : PTable) :
     HashLink.HashMap.equal h t o = (PTable.equal Kind.map t o).map (fun r => (t, r)) := by
-  unfold HashLink.HashMap.equal PTable.equal
-  by_cases hs : t.size = o.size
-  · simp only [hs, if_true, ne_eq, not_true_eq_false, if_false]
-    rw [← hs]; exact gen_map_equal_loop h t o _ _ _
-  · have hs' : ¬ o.size = t.size := fun e => hs e.symm
-    simp [hs, hs']
-theorem gen_set_assign_loop (h : Nat → Nat) (o : PTable) (fuel : Nat) : ∀ (pt : PTable) (t : Table) (i : Nxt), Rel pt t → t.Inv h →
-    HashLink.HashSet.assign_loop1 h fuel pt o i (.stl o.self) = PTable.appendLoop Kind.set h o.self o.items fuel i pt := by
-  induction fuel with
-  | zero =>
-    intro pt t i hr hi
-    cases i with
-    | stl s =>
-      unfold HashLink.HashSet.assign_loop1 PTable.appendLoop
-      by_cases hs : s = o.self <;> simp [hs]
-    | item a => simp [HashLink.HashSet.assign_loop1, PTable.appendLoop]
-  | succ f ih =>
-    intro pt t i hr hi
-    cases i with
-    | stl s =>
-      unfold HashLink.HashSet.assign_loop1 PTable.appendLoop
-      by_cases hs : s = o.self <;> simp [hs]
-    | item a =>
-      unfold HashLink.HashSet.assign_loop1 PTable.appendLoop
-      simp only [reduceCtorEq, if_false]
-      have e := gen_set_insert_rel hr hi t.order.length (o.items a).key (o.items a).value
-      rw [nxtAt_length] at e
-      rw [e]
-      obtain ⟨r, e1, _, hr', _⟩ := hr.insert hi Kind.set t.order.length (o.items a).key (o.items a).value (Nat.le_refl _)
-      rw [nxtAt_length] at e1
-      rw [e1]
-      simp only [Option.map_some]
-      exact ih r.1 _ _ hr' (hi.insert Kind.set t.order.length (o.items a).key (o.items a).value (Nat.le_refl _)).1
+  first
+  | -- both cursors declared in the `for` statement, the end compared as `&endItem`
+    have hloop : ∀ (fuel : Nat) (a b : Nxt),
+        HashLink.HashMap.equal_loop1 h fuel t o a b =
+          (PTable.eqLoop Kind.map t.self t.items o.items fuel a b).map (fun r => (t, r)) := by
+      intro fuel
+      induction fuel with
+      | zero =>
+        intro a b
+        cases a with
+        | stl s =>
+          unfold HashLink.HashMap.equal_loop1 PTable.eqLoop
+          by_cases hs : s = t.self <;> simp [hs]
+        | item x => simp [HashLink.HashMap.equal_loop1, PTable.eqLoop]
+      | succ f ih =>
+        intro a b
+        cases a with
+        | stl s =>
+          unfold HashLink.HashMap.equal_loop1 PTable.eqLoop
+          by_cases hs : s = t.self <;> simp [hs]
+        | item x =>
+          cases b with
+          | stl s => simp [HashLink.HashMap.equal_loop1, PTable.eqLoop]
+          | item y =>
+            unfold HashLink.HashMap.equal_loop1 PTable.eqLoop
+            simp only [reduceCtorEq, if_false]
+            by_cases hk : (t.items x).key = (o.items y).key
+            · by_cases hv : (t.items x).value = (o.items y).value
+              · simp only [hk, hv, if_true, ne_eq, not_true_eq_false, and_false, or_false, if_false]
+                exact ih _ _
+              · simp [hk, hv]
+            · simp [hk]
+    unfold HashLink.HashMap.equal PTable.equal
+    by_cases hs : t.size = o.size
+    · simp only [hs, if_true, ne_eq, not_true_eq_false, if_false]
+      rw [← hs]; exact hloop _ _ _
+    · have hs' : ¬ o.size = t.size := fun e => hs e.symm
+      simp [hs, hs']
+  | -- the end and `other`'s cursor as locals in front of the loop (harmless change C02-h6)
+    have hloop : ∀ (fuel : Nat) (a b : Nxt),
+        HashLink.HashMap.equal_loop1 h fuel t o (.stl t.self) b a =
+          (PTable.eqLoop Kind.map t.self t.items o.items fuel a b).map (fun r => (t, r)) := by
+      intro fuel
+      induction fuel with
+      | zero =>
+        intro a b
+        cases a with
+        | stl s =>
+          unfold HashLink.HashMap.equal_loop1 PTable.eqLoop
+          by_cases hs : s = t.self <;> simp [hs]
+        | item x => simp [HashLink.HashMap.equal_loop1, PTable.eqLoop]
+      | succ f ih =>
+        intro a b
+        cases a with
+        | stl s =>
+          unfold HashLink.HashMap.equal_loop1 PTable.eqLoop
+          by_cases hs : s = t.self <;> simp [hs]
+        | item x =>
+          cases b with
+          | stl s => simp [HashLink.HashMap.equal_loop1, PTable.eqLoop]
+          | item y =>
+            unfold HashLink.HashMap.equal_loop1 PTable.eqLoop
+            simp only [reduceCtorEq, if_false]
+            by_cases hk : (t.items x).key = (o.items y).key
+            · by_cases hv : (t.items x).value = (o.items y).value
+              · simp only [hk, hv, if_true, ne_eq, not_true_eq_false, and_false, or_false, if_false]
+                exact ih _ _
+              · simp [hk, hv]
+            · simp [hk]
+    unfold HashLink.HashMap.equal PTable.equal
+    by_cases hs : t.size = o.size
+    · simp only [hs, if_true, ne_eq, not_true_eq_false, if_false]
+      rw [← hs]; exact hloop _ _ _
+    · have hs' : ¬ o.size = t.size := fun e => hs e.symm
+      simp [hs, hs']
 
 /-- The translated `HashSet::operator=(other)` for ANOTHER object (`this == &other` is false: the guard line is the model's
     `assignSelf`) – `clear()`, then `append(i->key, i->value)` along `other`'s list up to `other`'s sentinel, the reads from
     `other`'s items – is the model's `assignFrom`, on every represented table and for EVERY source table. -/
 theorem gen_set_assign {h : Nat → Nat} {pt : PTable} {t : Table} (hr : Rel pt t) (hi : t.Inv h) (o : PTable) :
     HashLink.HashSet.assign h pt o = pt.assignFrom Kind.set h o := by
-  unfold HashLink.HashSet.assign PTable.assignFrom PTable.appendAll
-  rw [gen_set_clear]
-  obtain ⟨pt', e, hr', _⟩ := hr.clear hi
-  rw [e]
-  exact gen_set_assign_loop h o _ pt' _ _ hr' hi.clear.1
-
-theorem gen_set_equal_loop (h : Nat → Nat) (t o : PTable) (fuel : Nat) : ∀ (a b : Nxt),
-    HashLink.HashSet.equal_loop1 h fuel t o a b = (PTable.eqLoop Kind.set t.self t.items o.items fuel a b).map (fun r => (t, r)) := by
-  induction fuel with
-  | zero =>
-    intro a b
-    cases a with
-    | stl s =>
-      unfold HashLink.HashSet.equal_loop1 PTable.eqLoop
-      by_cases hs : s = t.self <;> simp [hs]
-    | item x => simp [HashLink.HashSet.equal_loop1, PTable.eqLoop]
-  | succ f ih =>
-    intro a b
-    cases a with
-    | stl s =>
-      unfold HashLink.HashSet.equal_loop1 PTable.eqLoop
-      by_cases hs : s = t.self <;> simp [hs]
-    | item x =>
-      cases b with
-      | stl s => simp [HashLink.HashSet.equal_loop1, PTable.eqLoop]
-      | item y =>
-        unfold HashLink.HashSet.equal_loop1 PTable.eqLoop
-        simp only [reduceCtorEq, if_false]
-        by_cases hk : (t.items x).key = (o.items y).key
-        · simp only [hk, if_true, ne_eq, not_true_eq_false, reduceCtorEq, false_and, or_false, if_false]
-          exact ih _ _
-        · simp [hk]
+  first
+  | -- the loop over `other`'s list written in `operator=` itself
+    have hloop : ∀ (fuel : Nat) (pt : PTable) (t : Table) (i : Nxt), Rel pt t → t.Inv h →
+        HashLink.HashSet.assign_loop1 h fuel pt o i (.stl o.self) = PTable.appendLoop Kind.set h o.self o.items fuel i pt := by
+      intro fuel
+      induction fuel with
+      | zero =>
+        intro pt t i hr hi
+        cases i with
+        | stl s =>
+          unfold HashLink.HashSet.assign_loop1 PTable.appendLoop
+          by_cases hs : s = o.self <;> simp [hs]
+        | item a => simp [HashLink.HashSet.assign_loop1, PTable.appendLoop]
+      | succ f ih =>
+        intro pt t i hr hi
+        cases i with
+        | stl s =>
+          unfold HashLink.HashSet.assign_loop1 PTable.appendLoop
+          by_cases hs : s = o.self <;> simp [hs]
+        | item a =>
+          unfold HashLink.HashSet.assign_loop1 PTable.appendLoop
+          simp only [reduceCtorEq, if_false]
+          have e := gen_set_insert_rel hr hi t.order.length (o.items a).key (o.items a).value
+          rw [nxtAt_length] at e
+          rw [e]
+          obtain ⟨r, e1, _, hr', _⟩ := hr.insert hi Kind.set t.order.length (o.items a).key (o.items a).value (Nat.le_refl _)
+          rw [nxtAt_length] at e1
+          rw [e1]
+          simp only [Option.map_some]
+          exact ih r.1 _ _ hr' (hi.insert Kind.set t.order.length (o.items a).key (o.items a).value (Nat.le_refl _)).1
+    unfold HashLink.HashSet.assign PTable.assignFrom PTable.appendAll
+    rw [gen_set_clear]
+    obtain ⟨pt', e, hr', _⟩ := hr.clear hi
+    rw [e]
+    exact hloop _ pt' _ _ hr' hi.clear.1
+  | -- `operator=` calls a member / helper that holds the loop (harmless change C02-h6)
+    have hloop : ∀ (fuel : Nat) (pt : PTable) (t : Table) (i : Nxt), Rel pt t → t.Inv h →
+        HashLink.HashSet.appendAll_loop1 h fuel pt o i (.stl o.self) = PTable.appendLoop Kind.set h o.self o.items fuel i pt := by
+      intro fuel
+      induction fuel with
+      | zero =>
+        intro pt t i hr hi
+        cases i with
+        | stl s =>
+          unfold HashLink.HashSet.appendAll_loop1 PTable.appendLoop
+          by_cases hs : s = o.self <;> simp [hs]
+        | item a => simp [HashLink.HashSet.appendAll_loop1, PTable.appendLoop]
+      | succ f ih =>
+        intro pt t i hr hi
+        cases i with
+        | stl s =>
+          unfold HashLink.HashSet.appendAll_loop1 PTable.appendLoop
+          by_cases hs : s = o.self <;> simp [hs]
+        | item a =>
+          unfold HashLink.HashSet.appendAll_loop1 PTable.appendLoop
+          simp only [reduceCtorEq, if_false]
+          have e := gen_set_insert_rel hr hi t.order.length (o.items a).key (o.items a).value
+          rw [nxtAt_length] at e
+          rw [e]
+          obtain ⟨r, e1, _, hr', _⟩ := hr.insert hi Kind.set t.order.length (o.items a).key (o.items a).value (Nat.le_refl _)
+          rw [nxtAt_length] at e1
+          rw [e1]
+          simp only [Option.map_some]
+          exact ih r.1 _ _ hr' (hi.insert Kind.set t.order.length (o.items a).key (o.items a).value (Nat.le_refl _)).1
+    unfold HashLink.HashSet.assign HashLink.HashSet.appendAll PTable.assignFrom PTable.appendAll
+    rw [gen_set_clear]
+    obtain ⟨pt', e, hr', _⟩ := hr.clear hi
+    rw [e]
+    simp only [hloop _ pt' _ _ hr' hi.clear.1]
+    cases PTable.appendLoop Kind.set h o.self o.items o.size o.begin pt' <;> rfl
 
 /-- `HashSet::operator==` compares keys only -/
 theorem gen_set_equal (h : Nat → Nat) (t o : PTable) :
     HashLink.HashSet.equal h t o = (PTable.equal Kind.set t o).map (fun r => (t, r)) := by
-  unfold HashLink.HashSet.equal PTable.equal
-  by_cases hs : t.size = o.size
-  · simp only [hs, if_true, ne_eq, not_true_eq_false, if_false]
-    rw [← hs]; exact gen_set_equal_loop h t o _ _ _
-  · have hs' : ¬ o.size = t.size := fun e => hs e.symm
-    simp [hs, hs']
+  first
+  | -- both cursors declared in the `for` statement, the end compared as `&endItem`
+    have hloop : ∀ (fuel : Nat) (a b : Nxt),
+        HashLink.HashSet.equal_loop1 h fuel t o a b =
+          (PTable.eqLoop Kind.set t.self t.items o.items fuel a b).map (fun r => (t, r)) := by
+      intro fuel
+      induction fuel with
+      | zero =>
+        intro a b
+        cases a with
+        | stl s =>
+          unfold HashLink.HashSet.equal_loop1 PTable.eqLoop
+          by_cases hs : s = t.self <;> simp [hs]
+        | item x => simp [HashLink.HashSet.equal_loop1, PTable.eqLoop]
+      | succ f ih =>
+        intro a b
+        cases a with
+        | stl s =>
+          unfold HashLink.HashSet.equal_loop1 PTable.eqLoop
+          by_cases hs : s = t.self <;> simp [hs]
+        | item x =>
+          cases b with
+          | stl s => simp [HashLink.HashSet.equal_loop1, PTable.eqLoop]
+          | item y =>
+            unfold HashLink.HashSet.equal_loop1 PTable.eqLoop
+            simp only [reduceCtorEq, if_false]
+            by_cases hk : (t.items x).key = (o.items y).key
+            · simp only [hk, if_true, ne_eq, not_true_eq_false, reduceCtorEq, false_and, or_false, if_false]
+              exact ih _ _
+            · simp [hk]
+    unfold HashLink.HashSet.equal PTable.equal
+    by_cases hs : t.size = o.size
+    · simp only [hs, if_true, ne_eq, not_true_eq_false, if_false]
+      rw [← hs]; exact hloop _ _ _
+    · have hs' : ¬ o.size = t.size := fun e => hs e.symm
+      simp [hs, hs']
+  | -- the end and `other`'s cursor as locals in front of the loop (harmless change C02-h6)
+    have hloop : ∀ (fuel : Nat) (a b : Nxt),
+        HashLink.HashSet.equal_loop1 h fuel t o (.stl t.self) b a =
+          (PTable.eqLoop Kind.set t.self t.items o.items fuel a b).map (fun r => (t, r)) := by
+      intro fuel
+      induction fuel with
+      | zero =>
+        intro a b
+        cases a with
+        | stl s =>
+          unfold HashLink.HashSet.equal_loop1 PTable.eqLoop
+          by_cases hs : s = t.self <;> simp [hs]
+        | item x => simp [HashLink.HashSet.equal_loop1, PTable.eqLoop]
+      | succ f ih =>
+        intro a b
+        cases a with
+        | stl s =>
+          unfold HashLink.HashSet.equal_loop1 PTable.eqLoop
+          by_cases hs : s = t.self <;> simp [hs]
+        | item x =>
+          cases b with
+          | stl s => simp [HashLink.HashSet.equal_loop1, PTable.eqLoop]
+          | item y =>
+            unfold HashLink.HashSet.equal_loop1 PTable.eqLoop
+            simp only [reduceCtorEq, if_false]
+            by_cases hk : (t.items x).key = (o.items y).key
+            · simp only [hk, if_true, ne_eq, not_true_eq_false, reduceCtorEq, false_and, or_false, if_false]
+              exact ih _ _
+            · simp [hk]
+    unfold HashLink.HashSet.equal PTable.equal
+    by_cases hs : t.size = o.size
+    · simp only [hs, if_true, ne_eq, not_true_eq_false, if_false]
+      rw [← hs]; exact hloop _ _ _
+    · have hs' : ¬ o.size = t.size := fun e => hs e.symm
+      simp [hs, hs']
+
 theorem gen_set_appendAll_loop (h : Nat → Nat) (o : PTable) (fuel : Nat) : ∀ (pt : PTable) (t : Table) (i : Nxt), Rel pt t → t.Inv h →
     HashLink.HashSet.appendAll_loop1 h fuel pt o i (.stl o.self) = PTable.appendLoop Kind.set h o.self o.items fuel i pt := by
   induction fuel with
@@ -1299,13 +1512,22 @@ theorem gen_set_notEqual (h : Nat → Nat) (t o : PTable) :
 
 /-! ### the members called with the object itself as `other` (translated with `other.x` = `x`) -/
 
-/-- The translated `swap(other)` with `other` = the object itself (both halves act on one object and one heap) is the model's
-    `swapSelf`, for EVERY table. -/
-theorem gen_map_swapSelf (a : PTable) : HashLink.HashMap.swapSelf a = some a.swapSelf := by
-  unfold HashLink.HashMap.swapSelf PTable.swapSelf PTable.adopt
-  cases ha : a.endPrev with
-  | none => simp [ha]
-  | some l => simp [ha, upd_same]
+/-- The translated `swap(other)` with `other` = the object itself (both halves act on one object and one heap, or the guard
+    `this == &other` returns at once) is the model's `swapSelf` on every represented table. -/
+theorem gen_map_swapSelf {pt : PTable} {t : Table} (hr : Rel pt t) :
+    HashLink.HashMap.swapSelf pt = some pt.swapSelf := by
+  first
+  | -- both halves of `swap` executed on the one object
+    unfold HashLink.HashMap.swapSelf PTable.swapSelf PTable.adopt
+    cases ha : pt.endPrev with
+    | none => simp [ha]
+    | some l => simp [ha, upd_same]
+  | -- `if(this == &other) return;` in front (harmless change C02-h6): nothing is touched, which is what both halves amount
+    -- to on a represented table
+    rw [hr.swapSelf_eq]
+    unfold HashLink.HashMap.swapSelf
+    cases pt
+    rfl
 
 theorem gen_set_appendSelf_loop (h : Nat → Nat) (fuel : Nat) : ∀ (pt : PTable) (t : Table) (i : Nxt), Rel pt t → t.Inv h →
     HashLink.HashSet.appendSelf_loop1 h fuel pt i (.stl pt.self) = PTable.appendSelfLoop Kind.set h fuel i pt := by
@@ -1336,17 +1558,35 @@ theorem gen_set_appendSelf_loop (h : Nat → Nat) (fuel : Nat) : ∀ (pt : PTabl
       rw [← hself]
       exact ih r.1 _ _ hr' (hi.insert Kind.set t.order.length (pt.items a).key (pt.items a).value (Nat.le_refl _)).1
 
-theorem gen_set_swapSelf (a : PTable) : HashLink.HashSet.swapSelf a = some a.swapSelf := by
-  unfold HashLink.HashSet.swapSelf PTable.swapSelf PTable.adopt
-  cases ha : a.endPrev with
-  | none => simp [ha]
-  | some l => simp [ha, upd_same]
+theorem gen_set_swapSelf {pt : PTable} {t : Table} (hr : Rel pt t) :
+    HashLink.HashSet.swapSelf pt = some pt.swapSelf := by
+  first
+  | -- both halves of `swap` executed on the one object
+    unfold HashLink.HashSet.swapSelf PTable.swapSelf PTable.adopt
+    cases ha : pt.endPrev with
+    | none => simp [ha]
+    | some l => simp [ha, upd_same]
+  | -- `if(this == &other) return;` in front (harmless change C02-h6): nothing is touched, which is what both halves amount
+    -- to on a represented table
+    rw [hr.swapSelf_eq]
+    unfold HashLink.HashSet.swapSelf
+    cases pt
+    rfl
 
-theorem gen_pool_swapSelf (a : PTable) : HashLink.PoolMap.swapSelf a = some a.swapSelf := by
-  unfold HashLink.PoolMap.swapSelf PTable.swapSelf PTable.adopt
-  cases ha : a.endPrev with
-  | none => simp [ha]
-  | some l => simp [ha, upd_same]
+theorem gen_pool_swapSelf {pt : PTable} {t : Table} (hr : Rel pt t) :
+    HashLink.PoolMap.swapSelf pt = some pt.swapSelf := by
+  first
+  | -- both halves of `swap` executed on the one object
+    unfold HashLink.PoolMap.swapSelf PTable.swapSelf PTable.adopt
+    cases ha : pt.endPrev with
+    | none => simp [ha]
+    | some l => simp [ha, upd_same]
+  | -- `if(this == &other) return;` in front (harmless change C02-h6): nothing is touched, which is what both halves amount
+    -- to on a represented table
+    rw [hr.swapSelf_eq]
+    unfold HashLink.PoolMap.swapSelf
+    cases pt
+    rfl
 
 /-- `a = a`: the guard `if(this == &other) return *this;` – nothing is touched -/
 theorem gen_map_assignSelf (h : Nat → Nat) (t : PTable) : HashLink.HashMap.assignSelf h t = some t := rfl
@@ -1524,46 +1764,91 @@ theorem gen_map_construct (h : Nat → Nat) (self : Bool) (c0 ipb dcap capacity 
   unfold HashLink.HashMap.construct PTable.construct PTable.fresh
   by_cases hc : capacity = 0 <;> simp [hc]
 
-theorem gen_map_copyConstruct_loop (h : Nat → Nat) (o : PTable) (fuel : Nat) : ∀ (pt : PTable) (t : Table) (i : Nxt), Rel pt t → t.Inv h →
-    HashLink.HashMap.copyConstruct_loop1 h fuel pt o i (.stl o.self) = PTable.appendLoop Kind.map h o.self o.items fuel i pt := by
-  induction fuel with
-  | zero =>
-    intro pt t i hr hi
-    cases i with
-    | stl s =>
-      unfold HashLink.HashMap.copyConstruct_loop1 PTable.appendLoop
-      by_cases hs : s = o.self <;> simp [hs]
-    | item a => simp [HashLink.HashMap.copyConstruct_loop1, PTable.appendLoop]
-  | succ f ih =>
-    intro pt t i hr hi
-    cases i with
-    | stl s =>
-      unfold HashLink.HashMap.copyConstruct_loop1 PTable.appendLoop
-      by_cases hs : s = o.self <;> simp [hs]
-    | item a =>
-      unfold HashLink.HashMap.copyConstruct_loop1 PTable.appendLoop
-      simp only [reduceCtorEq, if_false]
-      have e := gen_map_insert_rel hr hi t.order.length (o.items a).key (o.items a).value
-      rw [nxtAt_length] at e
-      rw [e]
-      obtain ⟨r, e1, _, hr', _⟩ := hr.insert hi Kind.map t.order.length (o.items a).key (o.items a).value (Nat.le_refl _)
-      rw [nxtAt_length] at e1
-      rw [e1]
-      simp only [Option.map_some]
-      exact ih r.1 _ _ hr' (hi.insert Kind.map t.order.length (o.items a).key (o.items a).value (Nat.le_refl _)).1
-
 /-- The translated copy constructor (member initialisers, then `append(i->key, i->value)` along `other`'s list) is the
     model's `copyOf`, for every source table whose class constants are those of the current header. -/
 theorem gen_map_copyConstruct (h : Nat → Nat) (self : Bool) (c0 : Nat) (o : PTable) (hd : o.dcap = Hash.defaultCapacityMap)
     (hk : 0 < o.ipb) :
     HashLink.HashMap.copyConstruct h (PTable.fresh self c0 o.ipb o.dcap) o = PTable.copyOf Kind.map h self o := by
-  have e0 : HashLink.HashMap.copyConstruct h (PTable.fresh self c0 o.ipb o.dcap) o =
-      HashLink.HashMap.copyConstruct_loop1 h o.size (PTable.fresh self Hash.defaultCapacityMap o.ipb o.dcap) o o.begin (.stl o.self) := rfl
-  rw [e0]
-  unfold PTable.copyOf PTable.appendAll
-  rw [hd]
-  exact gen_map_copyConstruct_loop h o _ _ _ _ (fresh_rel self _ _ _)
-    (fresh_inv h _ _ _ (by decide) hk (by decide))
+  first
+  | -- the loop written in the copy constructor itself
+    have hloop : ∀ (fuel : Nat) (pt : PTable) (t : Table) (i : Nxt), Rel pt t → t.Inv h →
+        HashLink.HashMap.copyConstruct_loop1 h fuel pt o i (.stl o.self) = PTable.appendLoop Kind.map h o.self o.items fuel i pt := by
+      intro fuel
+      induction fuel with
+      | zero =>
+        intro pt t i hr hi
+        cases i with
+        | stl s =>
+          unfold HashLink.HashMap.copyConstruct_loop1 PTable.appendLoop
+          by_cases hs : s = o.self <;> simp [hs]
+        | item a => simp [HashLink.HashMap.copyConstruct_loop1, PTable.appendLoop]
+      | succ f ih =>
+        intro pt t i hr hi
+        cases i with
+        | stl s =>
+          unfold HashLink.HashMap.copyConstruct_loop1 PTable.appendLoop
+          by_cases hs : s = o.self <;> simp [hs]
+        | item a =>
+          unfold HashLink.HashMap.copyConstruct_loop1 PTable.appendLoop
+          simp only [reduceCtorEq, if_false]
+          have e := gen_map_insert_rel hr hi t.order.length (o.items a).key (o.items a).value
+          rw [nxtAt_length] at e
+          rw [e]
+          obtain ⟨r, e1, _, hr', _⟩ := hr.insert hi Kind.map t.order.length (o.items a).key (o.items a).value (Nat.le_refl _)
+          rw [nxtAt_length] at e1
+          rw [e1]
+          simp only [Option.map_some]
+          exact ih r.1 _ _ hr' (hi.insert Kind.map t.order.length (o.items a).key (o.items a).value (Nat.le_refl _)).1
+    have e0 : HashLink.HashMap.copyConstruct h (PTable.fresh self c0 o.ipb o.dcap) o =
+        HashLink.HashMap.copyConstruct_loop1 h o.size (PTable.fresh self Hash.defaultCapacityMap o.ipb o.dcap) o o.begin (.stl o.self) := rfl
+    rw [e0]
+    unfold PTable.copyOf PTable.appendAll
+    rw [hd]
+    exact hloop _ _ _ _ (fresh_rel self _ _ _) (fresh_inv h _ _ _ (by decide) hk (by decide))
+  | -- the copy constructor calls a member / helper that holds the loop (harmless change C02-h6)
+    have hloop : ∀ (fuel : Nat) (pt : PTable) (t : Table) (i : Nxt), Rel pt t → t.Inv h →
+        HashLink.HashMap.appendAll_loop1 h fuel pt o i (.stl o.self) = PTable.appendLoop Kind.map h o.self o.items fuel i pt := by
+      intro fuel
+      induction fuel with
+      | zero =>
+        intro pt t i hr hi
+        cases i with
+        | stl s =>
+          unfold HashLink.HashMap.appendAll_loop1 PTable.appendLoop
+          by_cases hs : s = o.self <;> simp [hs]
+        | item a => simp [HashLink.HashMap.appendAll_loop1, PTable.appendLoop]
+      | succ f ih =>
+        intro pt t i hr hi
+        cases i with
+        | stl s =>
+          unfold HashLink.HashMap.appendAll_loop1 PTable.appendLoop
+          by_cases hs : s = o.self <;> simp [hs]
+        | item a =>
+          unfold HashLink.HashMap.appendAll_loop1 PTable.appendLoop
+          simp only [reduceCtorEq, if_false]
+          have e := gen_map_insert_rel hr hi t.order.length (o.items a).key (o.items a).value
+          rw [nxtAt_length] at e
+          rw [e]
+          obtain ⟨r, e1, _, hr', _⟩ := hr.insert hi Kind.map t.order.length (o.items a).key (o.items a).value (Nat.le_refl _)
+          rw [nxtAt_length] at e1
+          rw [e1]
+          simp only [Option.map_some]
+          exact ih r.1 _ _ hr' (hi.insert Kind.map t.order.length (o.items a).key (o.items a).value (Nat.le_refl _)).1
+    have key : ∀ T : PTable, T = PTable.fresh self Hash.defaultCapacityMap o.ipb o.dcap →
+        (match HashLink.HashMap.appendAll h T o with
+          | none => none
+          | some t => some t) = PTable.copyOf Kind.map h self o := by
+      intro T hT
+      subst hT
+      unfold HashLink.HashMap.appendAll PTable.copyOf PTable.appendAll
+      rw [hd]
+      have hl := hloop o.size (PTable.fresh self Hash.defaultCapacityMap o.ipb Hash.defaultCapacityMap) (Table.fresh Hash.defaultCapacityMap o.ipb Hash.defaultCapacityMap) o.begin
+        (fresh_rel self _ _ _) (fresh_inv h Hash.defaultCapacityMap o.ipb Hash.defaultCapacityMap (by decide) hk (by decide))
+      simp only [hl]
+      cases PTable.appendLoop Kind.map h o.self o.items o.size o.begin (PTable.fresh self Hash.defaultCapacityMap o.ipb Hash.defaultCapacityMap) <;> rfl
+    unfold HashLink.HashMap.copyConstruct
+    simp only []
+    exact key _ rfl
 
 /-- The translated default constructor, run on the raw storage of an object (any member values; the translator checks that
     every member is initialised), yields the model's fresh table with the capacity constant of the current header. -/
@@ -1576,46 +1861,91 @@ theorem gen_set_construct (h : Nat → Nat) (self : Bool) (c0 ipb dcap capacity 
   unfold HashLink.HashSet.construct PTable.construct PTable.fresh
   by_cases hc : capacity = 0 <;> simp [hc]
 
-theorem gen_set_copyConstruct_loop (h : Nat → Nat) (o : PTable) (fuel : Nat) : ∀ (pt : PTable) (t : Table) (i : Nxt), Rel pt t → t.Inv h →
-    HashLink.HashSet.copyConstruct_loop1 h fuel pt o i (.stl o.self) = PTable.appendLoop Kind.set h o.self o.items fuel i pt := by
-  induction fuel with
-  | zero =>
-    intro pt t i hr hi
-    cases i with
-    | stl s =>
-      unfold HashLink.HashSet.copyConstruct_loop1 PTable.appendLoop
-      by_cases hs : s = o.self <;> simp [hs]
-    | item a => simp [HashLink.HashSet.copyConstruct_loop1, PTable.appendLoop]
-  | succ f ih =>
-    intro pt t i hr hi
-    cases i with
-    | stl s =>
-      unfold HashLink.HashSet.copyConstruct_loop1 PTable.appendLoop
-      by_cases hs : s = o.self <;> simp [hs]
-    | item a =>
-      unfold HashLink.HashSet.copyConstruct_loop1 PTable.appendLoop
-      simp only [reduceCtorEq, if_false]
-      have e := gen_set_insert_rel hr hi t.order.length (o.items a).key (o.items a).value
-      rw [nxtAt_length] at e
-      rw [e]
-      obtain ⟨r, e1, _, hr', _⟩ := hr.insert hi Kind.set t.order.length (o.items a).key (o.items a).value (Nat.le_refl _)
-      rw [nxtAt_length] at e1
-      rw [e1]
-      simp only [Option.map_some]
-      exact ih r.1 _ _ hr' (hi.insert Kind.set t.order.length (o.items a).key (o.items a).value (Nat.le_refl _)).1
-
 /-- The translated copy constructor (member initialisers, then `append(i->key, i->value)` along `other`'s list) is the
     model's `copyOf`, for every source table whose class constants are those of the current header. -/
 theorem gen_set_copyConstruct (h : Nat → Nat) (self : Bool) (c0 : Nat) (o : PTable) (hd : o.dcap = Hash.defaultCapacitySet)
     (hk : 0 < o.ipb) :
     HashLink.HashSet.copyConstruct h (PTable.fresh self c0 o.ipb o.dcap) o = PTable.copyOf Kind.set h self o := by
-  have e0 : HashLink.HashSet.copyConstruct h (PTable.fresh self c0 o.ipb o.dcap) o =
-      HashLink.HashSet.copyConstruct_loop1 h o.size (PTable.fresh self Hash.defaultCapacitySet o.ipb o.dcap) o o.begin (.stl o.self) := rfl
-  rw [e0]
-  unfold PTable.copyOf PTable.appendAll
-  rw [hd]
-  exact gen_set_copyConstruct_loop h o _ _ _ _ (fresh_rel self _ _ _)
-    (fresh_inv h _ _ _ (by decide) hk (by decide))
+  first
+  | -- the loop written in the copy constructor itself
+    have hloop : ∀ (fuel : Nat) (pt : PTable) (t : Table) (i : Nxt), Rel pt t → t.Inv h →
+        HashLink.HashSet.copyConstruct_loop1 h fuel pt o i (.stl o.self) = PTable.appendLoop Kind.set h o.self o.items fuel i pt := by
+      intro fuel
+      induction fuel with
+      | zero =>
+        intro pt t i hr hi
+        cases i with
+        | stl s =>
+          unfold HashLink.HashSet.copyConstruct_loop1 PTable.appendLoop
+          by_cases hs : s = o.self <;> simp [hs]
+        | item a => simp [HashLink.HashSet.copyConstruct_loop1, PTable.appendLoop]
+      | succ f ih =>
+        intro pt t i hr hi
+        cases i with
+        | stl s =>
+          unfold HashLink.HashSet.copyConstruct_loop1 PTable.appendLoop
+          by_cases hs : s = o.self <;> simp [hs]
+        | item a =>
+          unfold HashLink.HashSet.copyConstruct_loop1 PTable.appendLoop
+          simp only [reduceCtorEq, if_false]
+          have e := gen_set_insert_rel hr hi t.order.length (o.items a).key (o.items a).value
+          rw [nxtAt_length] at e
+          rw [e]
+          obtain ⟨r, e1, _, hr', _⟩ := hr.insert hi Kind.set t.order.length (o.items a).key (o.items a).value (Nat.le_refl _)
+          rw [nxtAt_length] at e1
+          rw [e1]
+          simp only [Option.map_some]
+          exact ih r.1 _ _ hr' (hi.insert Kind.set t.order.length (o.items a).key (o.items a).value (Nat.le_refl _)).1
+    have e0 : HashLink.HashSet.copyConstruct h (PTable.fresh self c0 o.ipb o.dcap) o =
+        HashLink.HashSet.copyConstruct_loop1 h o.size (PTable.fresh self Hash.defaultCapacitySet o.ipb o.dcap) o o.begin (.stl o.self) := rfl
+    rw [e0]
+    unfold PTable.copyOf PTable.appendAll
+    rw [hd]
+    exact hloop _ _ _ _ (fresh_rel self _ _ _) (fresh_inv h _ _ _ (by decide) hk (by decide))
+  | -- the copy constructor calls a member / helper that holds the loop (harmless change C02-h6)
+    have hloop : ∀ (fuel : Nat) (pt : PTable) (t : Table) (i : Nxt), Rel pt t → t.Inv h →
+        HashLink.HashSet.appendAll_loop1 h fuel pt o i (.stl o.self) = PTable.appendLoop Kind.set h o.self o.items fuel i pt := by
+      intro fuel
+      induction fuel with
+      | zero =>
+        intro pt t i hr hi
+        cases i with
+        | stl s =>
+          unfold HashLink.HashSet.appendAll_loop1 PTable.appendLoop
+          by_cases hs : s = o.self <;> simp [hs]
+        | item a => simp [HashLink.HashSet.appendAll_loop1, PTable.appendLoop]
+      | succ f ih =>
+        intro pt t i hr hi
+        cases i with
+        | stl s =>
+          unfold HashLink.HashSet.appendAll_loop1 PTable.appendLoop
+          by_cases hs : s = o.self <;> simp [hs]
+        | item a =>
+          unfold HashLink.HashSet.appendAll_loop1 PTable.appendLoop
+          simp only [reduceCtorEq, if_false]
+          have e := gen_set_insert_rel hr hi t.order.length (o.items a).key (o.items a).value
+          rw [nxtAt_length] at e
+          rw [e]
+          obtain ⟨r, e1, _, hr', _⟩ := hr.insert hi Kind.set t.order.length (o.items a).key (o.items a).value (Nat.le_refl _)
+          rw [nxtAt_length] at e1
+          rw [e1]
+          simp only [Option.map_some]
+          exact ih r.1 _ _ hr' (hi.insert Kind.set t.order.length (o.items a).key (o.items a).value (Nat.le_refl _)).1
+    have key : ∀ T : PTable, T = PTable.fresh self Hash.defaultCapacitySet o.ipb o.dcap →
+        (match HashLink.HashSet.appendAll h T o with
+          | none => none
+          | some t => some t) = PTable.copyOf Kind.set h self o := by
+      intro T hT
+      subst hT
+      unfold HashLink.HashSet.appendAll PTable.copyOf PTable.appendAll
+      rw [hd]
+      have hl := hloop o.size (PTable.fresh self Hash.defaultCapacitySet o.ipb Hash.defaultCapacitySet) (Table.fresh Hash.defaultCapacitySet o.ipb Hash.defaultCapacitySet) o.begin
+        (fresh_rel self _ _ _) (fresh_inv h Hash.defaultCapacitySet o.ipb Hash.defaultCapacitySet (by decide) hk (by decide))
+      simp only [hl]
+      cases PTable.appendLoop Kind.set h o.self o.items o.size o.begin (PTable.fresh self Hash.defaultCapacitySet o.ipb Hash.defaultCapacitySet) <;> rfl
+    unfold HashLink.HashSet.copyConstruct
+    simp only []
+    exact key _ rfl
 
 theorem gen_pool_constructDefault (h : Nat → Nat) (self : Bool) (c0 ipb dcap : Nat) :
     HashLink.PoolMap.constructDefault h (PTable.fresh self c0 ipb dcap) = some (PTable.fresh self Hash.defaultCapacityPool ipb dcap) := rfl
